@@ -457,6 +457,14 @@ theorem log_status_is_response_status (env : Env) (cfg : Cfg) (ans : Bytes) (pos
   show (format env _ call.err).status = (failResp env _ call.err).status
   rw [format_status, failResp_status]
 
+/-- what `fail` logs: always the `"handler error"` record first; for an encodable error on a recorder nothing else;
+    for an error whose details do not encode exactly one more record (the encoding failure) -/
+theorem fail_logs_shape (env : Env) (cfg : Cfg) (ans : Bytes) (call : Call) :
+    (failLogs env cfg ans .recorder call).head? = some (failLog env cfg ans call) ∧
+    (bodyEncodes call.err = true → failLogs env cfg ans .recorder call = [failLog env cfg ans call]) ∧
+    (bodyEncodes call.err = false → failLogs env cfg ans .recorder call = [failLog env cfg ans call, encodeFailureRec]) := by
+  refine ⟨rfl, ?_, ?_⟩ <;> intro h <;> simp [failLogs, h]
+
 /-! ### formatter selection -/
 
 theorem lemma_fallback_candidate (opts : List Opt) : fallbackFmt ∈ candidates opts := by
